@@ -11,7 +11,7 @@ Local Open Scope string_scope.
 (** A defined type is an enum of its package exactly when the package declares at least one typed
     constant of it that is not opted out; each enum is listed once. *)
 Theorem C10_enum_iff : forall types p es,
-  Forall const_wf (p_consts p) -> fetch_pkg_enums types p = Ok es ->
+  Forall const_wf (p_consts p) -> fetch_pkg_enums_raw types p = Ok es ->
   NoDup (map en_id es) /\
   forall id, In id (map en_id es) <-> spec_members (p_consts p) id <> [].
 Proof. intros types p es W H. destruct (fetch_pkg_enums_spec types p es W H) as [A [B _]]. auto. Qed.
@@ -19,7 +19,7 @@ Proof. intros types p es W H. destruct (fetch_pkg_enums_spec types p es W H) as 
 (** Its members are all those constants, exported or not, each once, with their exact values and
     trailing comments (a permutation; the declaration order itself when the enum is not iota-like). *)
 Theorem C10_members : forall types p es e,
-  Forall const_wf (p_consts p) -> fetch_pkg_enums types p = Ok es -> In e es ->
+  Forall const_wf (p_consts p) -> fetch_pkg_enums_raw types p = Ok es -> In e es ->
   let raw := map (fun c => member_of c (c_comment c)) (spec_members (p_consts p) (en_id e)) in
   Permutation (en_members e) raw /\ (en_is_iota e = false -> en_members e = raw).
 Proof. intros types p es e W H He. destruct (fetch_pkg_enums_spec types p es W H) as [_ [_ C]]. destruct (C e He) as [A [B _]]. auto. Qed.
@@ -27,7 +27,7 @@ Proof. intros types p es e W H He. destruct (fetch_pkg_enums_spec types p es W H
 (** Soundness of the iota flag: integer-backed, and the exported members, in the reported member
     order, have the values 0,1,2,... without gap or duplicate. *)
 Theorem C10_iota_sound : forall types p es e,
-  Forall const_wf (p_consts p) -> fetch_pkg_enums types p = Ok es -> In e es -> en_is_iota e = true ->
+  Forall const_wf (p_consts p) -> fetch_pkg_enums_raw types p = Ok es -> In e es -> en_is_iota e = true ->
   type_is_integer types (en_id e) = true /\
   exported_int64 (en_members e) = map Some (zseq 0 (List.length (filter em_exported (en_members e)))).
 Proof. intros types p es e W H He Hi. destruct (fetch_pkg_enums_spec types p es W H) as [_ [_ C]]. destruct (C e He) as [_ [_ D]]. auto. Qed.
@@ -36,7 +36,7 @@ Proof. intros types p es e W H He Hi. destruct (fetch_pkg_enums_spec types p es 
     values are exactly 0..n-1, each once, in any declaration order, is flagged - in particular
     every plain iota block of non-negative constants. *)
 Theorem C10_iota_complete : forall types p es e vs,
-  Forall const_wf (p_consts p) -> fetch_pkg_enums types p = Ok es -> In e es ->
+  Forall const_wf (p_consts p) -> fetch_pkg_enums_raw types p = Ok es -> In e es ->
   type_is_integer types (en_id e) = true ->
   let raw := map (fun c => member_of c (c_comment c)) (spec_members (p_consts p) (en_id e)) in
   all_values raw = Some vs ->
@@ -47,7 +47,9 @@ Proof.
   rewrite (fetch_pkg_enums_flag types p es e W H He), Hint. apply (set_is_iota_complete _ vs); assumption.
 Qed.
 
-(** The walk over the user's packages: never a crash or a refusal, and every enum found comes from
+(** [fetch_pkg_enums_raw types p] is the table built from the constants [p_consts p]; the generator applies it to
+    [own_pkg types p], the package restricted to the constants whose type it declares itself ("its package
+    declares ..."). The walk over the user's packages: never a crash or a refusal, and every enum found comes from
     the constants of one selected package (enums are keyed by qualified type, so a type name used
     in two packages gives two unrelated enums). *)
 Theorem C10_walk_total : forall pr, exists es, fetch_enums pr = Ok es.
@@ -55,7 +57,7 @@ Proof. exact fetch_enums_ok. Qed.
 
 Theorem C10_walk_origin : forall pr es e, fetch_enums pr = Ok es -> In e es ->
   exists path p pes, In path (selected_pkgs pr) /\ find_pkg path (pr_pkgs pr) = Some p /\
-    fetch_pkg_enums (pr_types pr) p = Ok pes /\ In e pes.
+    fetch_pkg_enums_raw (pr_types pr) (own_pkg (pr_types pr) p) = Ok pes /\ In e pes.
 Proof. exact fetch_enums_origin. Qed.
 
 (** The two defects of the pinned tree, kept as regression witnesses. *)
